@@ -795,6 +795,10 @@ pub fn merge_tool_cases(quick: bool) -> Vec<MergeTool> {
             }
         }
     }
+    // 700 inputs with inexact sums, default threads against -t 1 and -t 16
+    for o in ["out.bedGraph", "out.bw"] {
+        v.push(MergeTool { inputs: vec![], clip: None, adjust: None, threshold: None, output: s(o), output_type: None, ucsc: false, input_style: 1, many: 700 });
+    }
     // more inputs than the tool keeps open at once (976): merged in chunks
     for (k, (adjust, threshold, o)) in [(None, None, "out.bedGraph"), (Some(0.5f32), Some(-10.0f32), "out.bw"), (Some(-1.0), None, "out.bw"), (None, Some(0.5), "out.bedGraph")].into_iter().enumerate() {
         if quick && k >= 2 {
@@ -813,7 +817,16 @@ pub fn c15_tool(t: &MergeTool, out: &mut Outcome) {
     }
     let all = merge_inputs();
     let contents: Vec<Vec<(String, Vec<(u32, u32, f32)>)>> = if t.many > 0 {
-        (0..t.many).map(|k| vec![(s("chrX"), vec![(10, 20, if k + 6 < t.many { -1.0 } else { 200.0 }), (30 + (k % 3) as u32, 40, 1.0)])]).collect()
+        (0..t.many)
+            .map(|k| {
+                if t.many == 700 {
+                    // ten bases, each with its own inexact value per input: ten different sums
+                    vec![(s("chrX"), (0..10u32).map(|j| (10 + j, 11 + j, 0.1 * (((k as u32 * 7 + j * 13) % 23) as f32 + 1.0) + 1e-4 * (k % 11) as f32)).collect())]
+                } else {
+                    vec![(s("chrX"), vec![(10, 20, if k + 6 < t.many { -1.0 } else { 200.0 }), (30 + (k % 3) as u32, 40, 1.0)])]
+                }
+            })
+            .collect()
     } else {
         t.inputs.iter().map(|i| all[*i].clone()).collect()
     };
@@ -900,6 +913,25 @@ pub fn c15_tool(t: &MergeTool, out: &mut Outcome) {
     // per-base comparison below decides
     if r.timed_out || r.code != Some(0) || !outp.exists() {
         out.fail("merge_tool_produced_no_output", &tags, format!("{:?}: exit {:?} timed_out {} output exists {} stderr {}", argv, r.code, r.timed_out, outp.exists(), r.stderr.chars().take(300).collect::<String>()));
+        return;
+    }
+    if t.many == 700 {
+        // 700 inputs whose sums are not exact in single precision: how the tool groups its inputs
+        // shows in the last bit, and must not depend on the thread count (the value oracle below
+        // would prescribe one particular order of additions, which the statement does not)
+        let first = std::fs::read(&outp).unwrap_or_default();
+        for threads in [1usize, 16] {
+            let mut argv2 = argv.clone();
+            argv2.pop();
+            argv2.extend([s("-t"), threads.to_string(), format!("t{}.{}", threads, t.output)]);
+            let r2 = run_in(dir, &argv2);
+            out.count("tool_merge_runs", 1);
+            out.count("tool_merge_thread_comparisons", 1);
+            let other = std::fs::read(dir.join(format!("t{}.{}", threads, t.output))).unwrap_or_default();
+            if r2.code != Some(0) || other != first {
+                out.fail("merge_output_depends_on_thread_count", &tags, format!("{:?}: exit {:?}, {} bytes against {} bytes of the default run{}", argv2, r2.code, other.len(), first.len(), if other.len() == first.len() { " (same length, different content)" } else { "" }));
+            }
+        }
         return;
     }
     // expected per-base values
@@ -1025,7 +1057,8 @@ pub fn avg_regions(k: usize) -> Vec<(String, u32, u32, String)> {
     // regions whose sizes are powers of two so that every quotient is exact at 3 decimals
     match k {
         0 => vec![(s("chr1"), 0, 8, s("r0"))],
-        1 => vec![(s("chr1"), 0, 8, s("a")), (s("chr1"), 4, 20, s("b")), (s("chr2"), 0, 8, s("c"))],
+        // (with empty regions -- insertion points -- inside a value, on an edge and in a gap)
+        1 => vec![(s("chr1"), 0, 8, s("a")), (s("chr1"), 2, 2, s("ins_in_value")), (s("chr1"), 4, 20, s("b")), (s("chr1"), 4, 4, s("ins_on_edge")), (s("chr2"), 0, 8, s("c")), (s("chr1"), 10, 10, s("ins_in_gap"))],
         // names with blanks inside and an empty name field: columns are separated by TAB only
         3 => vec![
             (s("chr1"), 0, 8, s("second region")),
@@ -1195,6 +1228,24 @@ pub fn c17_tool(t: &AvgTool, out: &mut Outcome) {
             Some(f) => {
                 if *f != text {
                     out.fail("average_tool_depends_on_threads", &tags, format!("-t {} output differs from -t 1 ({} vs {} lines)", threads, text.lines().count(), f.lines().count()));
+                }
+            }
+        }
+    }
+    // the result written to the terminal's device instead of a named file (its directory is not one
+    // in which files can be created): same rows for one and for several threads
+    if t.regions == 1 && t.namecol.is_none() {
+        if let Some(f) = &first {
+            for threads in [1usize, 4] {
+                let mut argv = vec![s("bigwigaverageoverbed"), s("in.bw"), s("regions.bed"), s("/proc/self/fd/1"), s("-t"), threads.to_string()];
+                if t.min_max {
+                    argv.push(s("--min-max"));
+                }
+                let r = run_in(dir, &argv);
+                out.count("tool_average_runs", 1);
+                out.count("tool_average_runs_to_dev_stdout", 1);
+                if r.timed_out || r.code != Some(0) || r.stdout != *f {
+                    out.fail("average_tool_depends_on_threads", &tags, format!("{:?}: exit {:?}, {} lines on standard output against {} in a named file; stderr {}", argv, r.code, r.stdout.lines().count(), f.lines().count(), r.stderr.chars().take(200).collect::<String>()));
                 }
             }
         }
